@@ -231,8 +231,10 @@ def _transpose(rows):
   values = OrderedDict()
   for row in reversed(rows):
     values.update(row)
-  for key, val in values.items():
-    transpose[key] = Col(_grist_type(val), [row.get(key, None) for row in rows])
+  for key in values:
+    col_values = [row.get(key, None) for row in rows]
+    first_value = next((v for v in col_values if v is not None), None)
+    transpose[key] = Col(_grist_type(first_value), col_values)
   return transpose
 
 
